@@ -8,3 +8,6 @@ import MtailVerif.Props.C13
 #print axioms MtailVerif.C21.sum_buckets_eq_count
 #print axioms MtailVerif.C13.export_skeletons
 #print axioms MtailVerif.C13.datum_skeletons
+#print axioms MtailVerif.C13.f_exporter_prometheus_skeletons
+#print axioms MtailVerif.C13.f_datum_datum_skeletons
+#print axioms MtailVerif.C13.f_mtail_mtail_skeletons
